@@ -3,7 +3,12 @@
 //   argv[1] = scratch root (a fresh sub-directory is created per case and removed afterwards)
 //   case <L> <N> <opts> <gran ms> <base hex> <suffix hex> <t0 ms> <tz>   fresh directory, clock := t0, process time zone :=
 //        <tz> minutes east of UTC (a POSIX TZ string such as VRF-09:00, no tz database needed), sink constructed
+//        optional after <tz>: <codec> ("-" or a QTextCodec name set with QTextCodec::setCodecForLocale before the sink is
+//        created) and <quiet> (1 = no flush and no listing until the `end` line: every other line prints "-")
 //   w <payload hex> | adv <ms> | restart | put <name hex> <bytes hex>
+//   w2 <payload hex>     write through a SECOND live sink object on the same path (created at its first use)
+//   sparse <bytes>       truncate(2) the active file to that size (a sparse file; listings show big files as @<size>)
+//   end                  destroy the sink object(s) and print the listing (the only listing of a quiet case)
 // output per line: <name hex>:<mtime ms>:<content hex>;...   (sorted by name hex; "-" = empty)
 // The wall clock: this file defines gettimeofday / clock_gettime(CLOCK_REALTIME) / time itself
 // (linked with -rdynamic so that Qt's calls resolve here).  Modification times are assigned by the
@@ -16,6 +21,7 @@
 #endif
 #include <QDir>
 #include <QFile>
+#include <QTextCodec>
 #include <iostream>
 #include <sstream>
 #include <map>
@@ -76,13 +82,17 @@ static void dump()
     std::vector<std::string> items;
     const auto entries = QDir(dir).entryList(QDir::Files | QDir::Hidden);
     for (const auto &e : entries) {
-        QFile f(dir + "/" + e);
-        f.open(QIODevice::ReadOnly);
-        auto b = f.readAll();
         struct stat s;
         stat(QFile::encodeName(dir + "/" + e).constData(), &s);
         std::ostringstream o;
-        o << hex(QFile::encodeName(e)) << ":" << ((long long)s.st_mtim.tv_sec * 1000 + s.st_mtim.tv_nsec / 1000000) << ":" << hex(b);
+        o << hex(QFile::encodeName(e)) << ":" << ((long long)s.st_mtim.tv_sec * 1000 + s.st_mtim.tv_nsec / 1000000) << ":";
+        if (s.st_size > (16 << 20)) {
+            o << "@" << (long long)s.st_size;          // never read the content of a huge (sparse) file
+        } else {
+            QFile f(dir + "/" + e);
+            f.open(QIODevice::ReadOnly);
+            o << hex(f.readAll());
+        }
         items.push_back(o.str());
     }
     std::sort(items.begin(), items.end());
@@ -96,7 +106,8 @@ int main(int argc, char **argv)
     setenv("TZ", "UTC", 1);
     tzset();
     QMessageLogContext ctx("f.cpp", 1, "void f()", "cat");
-    RotatingFileSink *sink = nullptr;
+    RotatingFileSink *sink = nullptr, *sink2 = nullptr;
+    bool quiet = false;
     int L = 0, N = 0, o = 0, ncase = 0;
     QString path;
     std::string line;
@@ -106,9 +117,12 @@ int main(int argc, char **argv)
         is >> op;
         if (op == "case") {
             delete sink; sink = nullptr;
+            delete sink2; sink2 = nullptr;
             if (!dir.isEmpty()) QDir(dir).removeRecursively();
-            std::string b, s; long long t0; int tz = 0;
-            is >> L >> N >> o >> g_gran >> b >> s >> t0 >> tz;
+            std::string b, s, codec = "-"; long long t0; int tz = 0, q = 0;
+            is >> L >> N >> o >> g_gran >> b >> s >> t0 >> tz >> codec >> q;
+            quiet = q != 0;
+            QTextCodec::setCodecForLocale(codec == "-" || codec.empty() ? nullptr : QTextCodec::codecForName(codec.c_str()));
             g_ms = t0;
             {   // POSIX: the offset in TZ is what must be ADDED to local time to get UTC, i.e. west-positive
                 char buf[32];
@@ -125,13 +139,27 @@ int main(int argc, char **argv)
             path = dir + "/" + QString::fromUtf8(unhex(b)) + (suffix.isEmpty() ? QString() : QStringLiteral(".") + suffix);
             sink = new RotatingFileSink(path, L, N, RotatingFileSink::Options(o));
         } else if (op == "restart") {
+            delete sink2; sink2 = nullptr;
             delete sink;
             sink = new RotatingFileSink(path, L, N, RotatingFileSink::Options(o));
         } else if (op == "w") {
             std::string h; is >> h;
             LogMessage m(QtInfoMsg, ctx, QString::fromUtf8(unhex(h)));
             sink->send(m);
-            sink->flush();
+            if (!quiet) sink->flush();
+        } else if (op == "w2") {
+            std::string h; is >> h;
+            if (!sink2) sink2 = new RotatingFileSink(path, L, N, RotatingFileSink::Options(o));
+            LogMessage m(QtInfoMsg, ctx, QString::fromUtf8(unhex(h)));
+            sink2->send(m);
+            sink2->flush();
+        } else if (op == "sparse") {
+            long long n; is >> n;
+            truncate(QFile::encodeName(path).constData(), n);
+        } else if (op == "end") {
+            delete sink2; sink2 = nullptr;
+            delete sink; sink = nullptr;
+            quiet = false;
         } else if (op == "adv") {
             long long d; is >> d; if (d > 0) g_ms += d;
         } else if (op == "put") {
@@ -142,8 +170,9 @@ int main(int argc, char **argv)
             f.close();
         }
         restamp();
-        dump();
+        if (quiet) std::cout << "-" << std::endl; else dump();
     }
+    delete sink2;
     delete sink;
     if (!dir.isEmpty()) QDir(dir).removeRecursively();
     return 0;
